@@ -235,7 +235,7 @@ def history(rng, force=None, nconn=None, teardown=None, length=None, avoid_overl
 
 
 def app_send(rng, c):
-    st = rng.choice([200, 200, 404, 204, 500, 100])
+    st = rng.choice([200, 200, 404, 204, 500, 100, 201, 205, 299, 301, 600, 999])
     args = ["app-send", "c%d" % c, "st=%d" % st]
     if rng.chance(1, 3):
         args.append("hs=" + hx(rng.choice([b"X-A: 1\r\n", b"X-A: 1\r\nX-B: 2\r\n", b"\r\nX: 1\r\n", b"X: y"])))
